@@ -1,5 +1,5 @@
 """
-Sensitivity runs: python -m vf.mutate [ID ...]
+Sensitivity runs: python -m vf.mutate [ID[:name-substring] ...]
 Each mutant in /verif/mutants/<ID>.json = {"name", "file", "old", "new"} is applied to a scratch copy of /repo/src (never to
 /repo), the quick check is run against it with VERIF_REPO, and must exit 1. Results go to /verif/mutants/RESULTS.json.
 """
@@ -50,11 +50,14 @@ def run_one(pid, m):
 
 
 def main():
-    ids = [a.upper() for a in sys.argv[1:]] or sorted(p.stem for p in (VERIF / "mutants").glob("C*.json"))
+    # arguments: property ids, optionally "ID:substring" to run only the mutants whose name contains the substring
+    args = [a.split(":", 1) + [""] for a in sys.argv[1:]] or [[p.stem, ""] for p in sorted((VERIF / "mutants").glob("C*.json"))]
     jobs = []
-    for pid in ids:
+    for pid, sub, *_ in args:
+        pid = pid.upper()
         for m in json.loads((VERIF / "mutants" / f"{pid}.json").read_text()):
-            jobs.append((pid, m))
+            if sub in m["name"]:
+                jobs.append((pid, m))
     with ThreadPoolExecutor(max_workers=int(os.environ.get("VF_MUT_JOBS", "4"))) as ex:
         results = list(ex.map(lambda j: run_one(*j), jobs))
     resf = VERIF / "mutants" / "RESULTS.json"
